@@ -187,12 +187,15 @@ class Gen:
                 name = r.choice(['A', 'A', 'B', 'A:2', 'B:1', None, None, f'n{self.na}', f'n{self.na}', f'{r.choice(self.concrete)}:{r.randint(0, 5)}'])
                 aid = None
                 if r.random() < 0.4:
-                    aid = r.choice([0, 0, self.next + r.randint(0, 2), r.randint(-2, 6), r.choice(sorted(self.used_ids) or [1])])
+                    # ids of removed assets are re-used on purpose: a removed object and a live one then share an id
+                    freed = sorted({self.ids[a] for a in self.dead_a} - {self.ids[a] for a in self.live_a})
+                    aid = r.choice([0, 0, self.next + r.randint(0, 2), r.randint(-2, 6), r.choice(sorted(self.used_ids) or [1]),
+                                    r.choice(freed or [1]), r.choice(freed or [2])])
                 defs = []
                 for d in self.defenses_of(t):
                     if r.random() < 0.4: defs.append([d, repr(r.choice([0.0, 1.0, 0.5, 0.25, -0.1, 1.0001, 1.0, 0.0]))])
                 ok = all(0.0 <= float(v) <= 1.0 for _, v in defs)
-                extras = '{}' if r.random() < 0.8 or not self.with_extras else jtxt({'color': 'red', 'n': r.randint(0, 3)})
+                extras = '{}' if r.random() < 0.8 or not self.with_extras else jtxt({'color': r.choice(['red', 'gr\u00fcn', 'bl\U0001F535']), 'n': r.randint(0, 3), 'w': r.choice([0.5, 1e-07, 1e+22, 3])})
                 allow = r.random() < 0.8
                 self.ops.append({'k': 'add_asset', 'type': t, 'name': name, 'defenses': defs, 'defsOk': ok, 'extras': extras,
                                  'id': aid, 'allowDup': allow})
@@ -217,7 +220,13 @@ class Gen:
             elif k == 'add_association' and self.live_a:
                 assoc = r.choice(self.spec['associations'])
                 cls = assoc_class_name(self.spec, assoc)
-                pool = self.live_a + ([r.choice(self.usable_dead_assets())] if self.usable_dead_assets() and r.random() < 0.1 else [])
+                dead = self.usable_dead_assets()
+                # a removed asset whose id has been taken over by a live asset *with another name*: still an invalid
+                # handle (pjs compares by value, and the names differ), but an id-based membership test accepts it
+                by_id = {self.ids[b]: b for b in self.live_a}
+                shadowed = [a for a in self.dead_a if self.ids[a] in by_id and self.names_of.get(a) != self.names_of.get(by_id[self.ids[a]])]
+                cand = shadowed if shadowed and r.random() < 0.7 else dead
+                pool = self.live_a + ([r.choice(cand)] if cand and r.random() < (0.3 if shadowed else 0.1) else [])
                 def pick(decl, mx):
                     good = [a for a in pool if decl in self.anc(self.type[a])]
                     if r.random() < 0.15 or not good: good = pool         # wrong types sometimes
@@ -233,7 +242,7 @@ class Gen:
                     l = self.nl; self.nl += 1
                     self.live_l.append(l); self.links[l] = (cls, list(left), list(right))
             elif k == 'set_assoc_extras' and self.live_l:
-                self.ops.append({'k': 'set_assoc_extras', 'l': r.choice(self.live_l), 'extras': jtxt({'note': 'n' + str(r.randint(0, 9)), 'w': [1, 2]})})
+                self.ops.append({'k': 'set_assoc_extras', 'l': r.choice(self.live_l), 'extras': jtxt({'note': 'n' + str(r.randint(0, 9)) + r.choice(['', '', '\U0001F4CE']), 'w': [1, r.choice([2, 2.5e-08, 1e+16])]})})
             elif k == 'remove_association' and (self.live_l or self.dead_l):
                 pool = self.live_l if (self.live_l and r.random() < 0.85) or not self.usable_dead_links() else self.usable_dead_links()
                 if not pool: continue
